@@ -36,7 +36,7 @@ pub(crate) fn invariant(b: &ReadBuffer) -> bool {
     b.begin <= b.end && b.end <= CAP
 }
 
-//@ props: C05 C07
+//@ props: C05 C07~
 //@ peer: yes
 //@ timeout: 900
 //@ fns: common::buffer::ReadBuffer::read_some, ReadBuffer::is_empty, ReadBuffer::len, common::phys::PhysLayer::read (in-memory transport)
